@@ -292,6 +292,9 @@ func (c *Cache) getSubscription(name string, subscribe bool) (*EventSubscription
 			eventSub.enqueueEvent(subj, payload)
 		})
 		if err != nil {
+			// Release the count again, or else the
+			// event subscription will never be removed.
+			eventSub.removeCount(1)
 			return nil, err
 		}
 
